@@ -28,6 +28,7 @@ import (
 	"net/http/httptest"
 	"sort"
 	"strings"
+	"sync"
 	"sync/atomic"
 	"time"
 
@@ -170,15 +171,24 @@ func (stubRetrieval) GetRouteScore(int64) map[string]int64 { return nil }
 // wrapper waits for it before returning, i.e. it fixes the schedule "the
 // refresh runs at once". Without it the order of the refresh relative to the
 // caller's next store operation would depend on the Go scheduler.
+//
+// Calls are serialised (the joiner reads sibling chunks from parallel
+// goroutines; sync.WaitGroup must not be waited on while another Get adds to it).
 type syncStore struct{ *localstore.DB }
 
+var syncStoreMu sync.Mutex
+
 func (s syncStore) Get(ctx context.Context, mode storage.ModeGet, addr boson.Address) (boson.Chunk, error) {
+	syncStoreMu.Lock()
+	defer syncStoreMu.Unlock()
 	ch, err := s.DB.Get(ctx, mode, addr)
 	s.DB.VerifWaitUpdateGC()
 	return ch, err
 }
 
 func (s syncStore) GetMulti(ctx context.Context, mode storage.ModeGet, addrs ...boson.Address) ([]boson.Chunk, error) {
+	syncStoreMu.Lock()
+	defer syncStoreMu.Unlock()
 	ch, err := s.DB.GetMulti(ctx, mode, addrs...)
 	s.DB.VerifWaitUpdateGC()
 	return ch, err
@@ -523,17 +533,21 @@ func (n *Node) ReadFile(f *File, local bool) ([]byte, error) {
 }
 
 // Cache makes the file a fully cached (requested) file: pyramid from the
-// peer, then a complete read through netstore.
+// peer, then the reads a sequential download performs through netstore under
+// the root context: the file entry's root chunk, then every data chunk in
+// file order (the joiner would issue the same Gets, siblings in parallel; the
+// fixed order keeps the execution deterministic).
 func (n *Node) Cache(f *File) error {
 	if err := n.CachePyramid(f); err != nil {
 		return fmt.Errorf("pyramid: %w", err)
 	}
-	data, err := n.ReadFile(f, false)
-	if err != nil {
+	if err := n.FetchChunk(f.Root, f.Ref); err != nil {
 		return fmt.Errorf("read: %w", err)
 	}
-	if !bytes.Equal(data, f.Data) {
-		return fmt.Errorf("read: content differs")
+	for _, a := range f.DataCid {
+		if err := n.FetchChunk(f.Root, a); err != nil {
+			return fmt.Errorf("read: %w", err)
+		}
 	}
 	return nil
 }
